@@ -45,10 +45,24 @@ pub struct C07;
 /// materialising or walking a range of 2^31 elements is unbounded work, not a panic: keep numeric ranges small
 fn tame(v: Val) -> Val {
     match v {
-        Val::Range(a, b) => match (*a, *b) {
-            (Val::Int(x), Val::Int(y)) if (y as i64 - x as i64).abs() > 1000 => Val::Range(Box::new(Val::Int(x % 50)), Box::new(Val::Int(x % 50 + (y % 9)))),
-            (x, y) => Val::Range(Box::new(tame(x)), Box::new(tame(y))),
-        },
+        Val::Range(a, b) => {
+            let num = |v: &Val| match v {
+                Val::Int(i) => Some(*i as f64),
+                Val::Float(bits) => Some(f64::from_bits(*bits)),
+                _ => None,
+            };
+            match (num(&a), num(&b)) {
+                (Some(x), Some(y)) if !((y - x).abs() <= 1000.0) => {
+                    // keep the kinds (int / float) but bring the ends close together
+                    let small = |v: &Val, k: i32| match v {
+                        Val::Float(_) => Val::Float((k as f64 + 0.5).to_bits()),
+                        _ => Val::Int(k),
+                    };
+                    Val::Range(Box::new(small(&a, 3)), Box::new(small(&b, 9)))
+                }
+                _ => Val::Range(Box::new(tame(*a)), Box::new(tame(*b))),
+            }
+        }
         Val::Pair(a, b) => Val::Pair(Box::new(tame(*a)), Box::new(tame(*b))),
         Val::Concat(a, b) => Val::Concat(Box::new(tame(*a)), Box::new(tame(*b))),
         Val::Slice(a, b) => Val::Slice(Box::new(tame(*a)), Box::new(tame(*b))),
@@ -76,7 +90,8 @@ fn exotic_value_raw(rng: &mut Rng, depth: usize) -> Val {
         9 => Val::Sym(*rng.pick(&[0u64, 1, u64::MAX, symbol_value("ka"), symbol_value("kb")])),
         10 => Val::Text(rng.pick(&["", "a", "hello world", "日本語", "a😀b", "0", "12", "-5", "1.5", "$?", "()"]).to_string()),
         11 => Val::Bytes(rng.pick(&["a", "xyz", "0"]).as_bytes().to_vec()),
-        12 => Val::Expr(*rng.pick(&[0usize, 1, 2, 99, usize::MAX])),
+        // expression values naming a valid jump entry re-enter the program itself (unbounded recursion): invalid ones only
+        12 => Val::Expr(*rng.pick(&[99usize, 1000, usize::MAX])),
         13 => Val::External(*rng.pick(&[0usize, 1, 7, usize::MAX])),
         14 => Val::SymList(vec![SymPart::Sym(symbol_value("ka")), SymPart::Sym(symbol_value("kb")), SymPart::Sym(1)][..rng.range(2, 3)].to_vec()),
         _ => Val::List(vec![]),
@@ -128,7 +143,7 @@ fn operand(rng: &mut Rng) -> String {
         7 | 8 | 9 => rng.pick(&["t1", "t2", "t3"]).to_string(),
         10 => "$".to_string(),
         11 | 12 => num(rng),
-        13 => rng.pick(&["\"\"", "\"é\"", "\"日本語\"", "\"abc\"", "\"12\"", "\"1.5\"", "\"--3\"", "'abc'", "''", "\"a😀b\""]).to_string(),
+        13 => rng.pick(&["\"\"", "\"é\"", "\"日本語\"", "\"abc\"", "\"12\"", "\"1.5\"", "\"--3\"", "'abc'", "'x'", "\"a😀b\""]).to_string(),
         14 => rng.pick(&["(,)", "(1 2 3)", "(1,)", "(:ka = 1, :kb = 2)", "((1 2) (3 4))", "(:ka = (,))", "(1 \"a\" :ka)"]).to_string(),
         15 => rng.pick(&[":ka", ":ka.kb", ":ka.kb.kc", "(:ka = 5)", "(1 = 2)", "(:ka = :kb = 3)"]).to_string(),
         16 => rng.pick(&["()", "$?", "$!", "#1", "#\"\"", "#(,)", "#:s", "#()"]).to_string(),
@@ -159,12 +174,12 @@ fn template(rng: &mut Rng) -> String {
             // deep nesting built at run time: a loop that wraps its state n times, then consumes it
             let n = *rng.pick(&[5usize, 50, 200]);
             let wrap = *rng.pick(&["($.v,)", "(:ka = $.v)", "(:ka = $.v,)", "($.v <> 1)", "{ $ } ~ $.v", "(1 = $.v)", "(\"ab\" <> $.v)"]);
-            let consume = *rng.pick(&["$.v ~# \"\"", "$.v == $.v", "$.v ~# ''", "$.v.|", "$.v <> $.v", "$.v ~# :s", "$.v != (1,)", "$.v ~# (,)", "$.v ~# 0", "$.v < $.v"]);
+            let consume = *rng.pick(&["$.v ~# \"\"", "$.v == $.v", "$.v ~# 'x'", "$.v.|", "$.v <> $.v", "$.v ~# :s", "$.v != (1,)", "$.v ~# (,)", "$.v ~# 0", "$.v < $.v"]);
             format!("{{ ($.n) < {} ?> ^~ ((:n = (($.n) + 1)), (:v = {})) |> {} }} <~ ((:n = 0), (:v = 1))", n, wrap, consume)
         }
         8 => {
             // every cast target
-            let target = *rng.pick(&["\"\"", "''", "0", "(,)", ":s", "#0", "#\"\"", "#''", "#(,)", "#:s", "#()", "#$?", "#(1..2)", "#(1 = 2)", "#(1 <> 2)", "#{ 1 }", "$?", "()", "1.5"]);
+            let target = *rng.pick(&["\"\"", "'x'", "0", "(,)", ":s", "#0", "#\"\"", "#'x'", "#(,)", "#:s", "#()", "#$?", "#(1..2)", "#(1 = 2)", "#(1 <> 2)", "#{ 1 }", "$?", "()", "1.5"]);
             format!("{} ~# {}", operand(rng), target)
         }
         _ => {
@@ -202,7 +217,7 @@ fn base(rng: &mut Rng) -> Base {
         let keys = cfg.keys.clone();
         let mut g = Gen::new(rng, cfg);
         let p: G = g.program();
-        (p.top(), keys)
+        (g.print(&p), keys)
     };
     let input = if rng.chance(1, 3) { exotic_value(rng, 2) } else { gen_input(rng, &keys) };
     let mut script = HostScript::default();
@@ -423,6 +438,9 @@ impl Campaign for C07 {
         let group = self.group(tier);
         let v = (index % group) as usize;
         let b = base(rng);
+        if std::env::var("C07_TRACE_BASE").is_ok() {
+            eprintln!("BASE {:?}", b.src);
+        }
         let (l0, allocs, calls) = measure(&b).unwrap_or((0, 0, 0));
         let mut sc = Sc07 { basic: true, knobs: Knobs::default(), src: b.src.clone(), input: b.input.clone(), script: b.script.clone(), compact_every: 0, after_err: AfterErr::Nothing, max_steps: 1500, fault: "none".into() };
         // the rng continues deterministically from the base draws; per-variant choices use a fork keyed by v
